@@ -245,6 +245,9 @@ fn cases(args: &Args, rng: &mut Rng) -> Vec<Case> {
         v.push(c13_case(32_768, 0, 256 * 1024, 80, &[9000, 0, 300], faults_parse(f), None));
         v.push(c13_case(32_768, 4, 65_536, 80, &[9000, 0, 300], faults_parse(f), Some(0xFFFF_FFFC)));
     }
+    // TSN wrap inside the sent queue with only the first chunk arriving (the late-SACK filter history)
+    v.push(c13_case(131_072, 0, 256 * 1024, 120, &[4500], faults_parse("A.TSN.1.dropn1+A.TSN.2.dropn1+A.TSN.3.dropn1"), Some(0xFFFF_FFFE)));
+    v.push(c13_case(131_072, 0, 256 * 1024, 120, &[9000], faults_parse("A.TSN.2.dropn2+A.TSN.3.dropn1+A.TSN.5.dropn1"), Some(0xFFFF_FFFD)));
     let nrand = if args.tier_thorough { 200 } else { 10 };
     for _ in 0..nrand {
         let nf = rng.range(1, 4) as usize;
